@@ -48,6 +48,20 @@ fn model_toks(m: &Model) -> String {
     toks(&v)
 }
 
+/// a logic node (And/Or/Xor/Implies/Iff) directly under + - * /
+fn logic_under_arith(e: &Exp) -> bool {
+    let is_logic = |x: &Exp| matches!(x, Exp::And(_) | Exp::Or(_) | Exp::Xor(..) | Exp::Implies(..) | Exp::Iff(..));
+    match e {
+        Exp::BinOp(op, l, r) =>
+            (matches!(op, BinOp::Add | BinOp::Sub | BinOp::Mul | BinOp::Div) && (is_logic(l) || is_logic(r)))
+                || logic_under_arith(l) || logic_under_arith(r),
+        Exp::Number(_) | Exp::Variable(_) => false,
+        Exp::Abs(x) | Exp::Not(x) | Exp::UnOp(_, x) => logic_under_arith(x),
+        Exp::Min(es) | Exp::Max(es) | Exp::And(es) | Exp::Or(es) => es.iter().any(logic_under_arith),
+        Exp::Xor(a, b) | Exp::Implies(a, b) | Exp::Iff(a, b) => logic_under_arith(a) || logic_under_arith(b),
+    }
+}
+
 // ------------------------------------------------------------------------------------------------ re-compilation
 fn first_line(s: &str) -> String { s.lines().filter(|l| !l.trim().is_empty()).take(2).collect::<Vec<_>>().join(" / ").chars().take(160).collect() }
 
@@ -200,6 +214,9 @@ fn model_case(m: &Model, mut tags: Vec<String>, roundtrip: bool) -> Case {
     c.imp = format!("(ok {})", sx::q(&text));
     c.show = format!("Model: {}", text.replace('\n', " | "));
     c.nontrivial = true;
+    if logic_under_arith(&m.objective().rhs) || m.constraints().iter().any(|c| logic_under_arith(c.lhs()) || logic_under_arith(c.rhs())) {
+        tags.push("logic-operand-under-arithmetic".into());
+    }
     if roundtrip {
         let first = std::panic::catch_unwind(std::panic::AssertUnwindSafe(|| Linearizer::linearize(m.clone())));
         if let Ok(Ok(l1)) = first {
@@ -212,9 +229,13 @@ fn model_case(m: &Model, mut tags: Vec<String>, roundtrip: bool) -> Case {
                 }
                 Recompiled::Rejected(stage, msg) => {
                     tags.push(format!("reparse-rejected-{}", stage));
+                    let lua = logic_under_arith(&m.objective().rhs)
+                        || m.constraints().iter().any(|c| logic_under_arith(c.lhs()) || logic_under_arith(c.rhs()));
                     if matches!(m.objective().objective_type, OptimizationType::Satisfy) && stage == "parse"
                         && text.lines().next().map(|l| l.trim() != "solve").unwrap_or(false) {
                         c.sig = Some("solve-rendered-with-expression".into());
+                    } else if lua {
+                        c.sig = Some("display-logic-operand-unparenthesised".into());
                     }
                     c.impl_violation = Some(format!("rendering of a compiled model is rejected at {}: {}  <=  {}", stage, msg, text.replace('\n', " | ")));
                 }
@@ -305,6 +326,12 @@ fn lin(r: &mut Rng, depth: u32, sweep: bool, rich: bool) -> S {
         };
     }
     let d = depth - 1;
+    if r.chance(1, 25) {
+        // a logic value used as a number: `(b and d) + x`
+        let op = *r.pick(&["+", "-"]);
+        return if r.chance(1, 2) { S::Bin(op, Box::new(logic(r, 1)), Box::new(lin(r, d_dec(depth), sweep, rich))) }
+               else { S::Bin(op, Box::new(lin(r, d_dec(depth), sweep, rich)), Box::new(logic(r, 1))) };
+    }
     match r.below(if rich { 14 } else { 11 }) {
         0 | 1 | 2 => S::Bin("+", Box::new(lin(r, d, sweep, rich)), Box::new(lin(r, d, sweep, rich))),
         3 | 4 | 5 => S::Bin("-", Box::new(lin(r, d, sweep, rich)), Box::new(lin(r, d, sweep, rich))),
@@ -317,6 +344,7 @@ fn lin(r: &mut Rng, depth: u32, sweep: bool, rich: bool) -> S {
         _ => S::Max((0..1 + r.below(3)).map(|_| lin(r, d, sweep, false)).collect()),
     }
 }
+fn d_dec(depth: u32) -> u32 { depth.saturating_sub(1) }
 fn logic(r: &mut Rng, depth: u32) -> S {
     if depth == 0 || r.chance(1, 4) {
         let v = S::Var(r.pick(&BOOLS).to_string());
@@ -371,7 +399,7 @@ fn lin_var_type(r: &mut Rng) -> VariableType {
         5 => if r.chance(1, 2) { VariableType::Real(f64::NEG_INFINITY, 7.5) } else { VariableType::Real(-2.0, f64::INFINITY) },
         6 => VariableType::NonNegativeReal(0.0, f64::INFINITY),
         7 => VariableType::NonNegativeReal(0.0, r.range(1, 40) as f64 / 2.0),
-        _ => VariableType::NonNegativeReal(0.25, 1e9),
+        _ => if r.chance(1, 2) { VariableType::NonNegativeReal(0.25, 1e9) } else { VariableType::NonNegativeReal(0.25, f64::INFINITY) },
     }
 }
 
@@ -410,6 +438,7 @@ fn seeded_sources() -> Vec<(&'static str, &'static str)> {
         ("seed-repo-test-1", "max abs { x - y } + min { x, y }\ns.t.\n    cap: x + y <= 10\ndefine\n    x, y as NonNegativeReal(0, 8)"),
         ("seed-repo-test-2", "min max { x, y }\ns.t.\n    lower: x + y >= 4\ndefine\n    x, y as NonNegativeReal(0, 9)"),
         ("seed-logic", "max x\ns.t.\n    a: b or (d and not b)\n    x <= 3 * b + 1\ndefine\n    x as Real(-5, 10)\n    b, d as Boolean"),
+        ("seed-logic-under-arith", "max x\ns.t.\n    (b and d) + x <= 1\n    x - (b or d) >= -3\ndefine\n    x as Real(-5, 10)\n    b, d as Boolean"),
         ("seed-neg-literal", "min -3 * x + (-2) * -y\ns.t.\n    x - -y >= -1\ndefine\n    x, y as Real(-5, 10)"),
     ]
 }
